@@ -500,7 +500,11 @@ def c14_5(ctx):
     ctx.rule('C14.5', 'except handlers map to an exit or to "no match"; none swallows SystemExit / Exception', 12)
     sanctioned = {('bespokeasm.assembler.model.operand.types.numeric_expression.NumericExpressionOperand.parse_operand', 'SyntaxError'),
                   # text that is not a well-formed expression is no value of the enumeration either: "no match", the next alternative is tried
-                  ('bespokeasm.assembler.model.operand.types.numeric_enumeration.NumericEnumerationOperand.parse_operand', 'SyntaxError')}
+                  ('bespokeasm.assembler.model.operand.types.numeric_enumeration.NumericEnumerationOperand.parse_operand', 'SyntaxError'),
+                  # ... and likewise for the other expression-bearing operand forms (a later variant may accept the text)
+                  ('bespokeasm.assembler.model.operand.types.numeric_bytecode.NumericBytecode.parse_operand', 'SyntaxError'),
+                  ('bespokeasm.assembler.model.operand.types.relative_address.RelativeAddressOperand.parse_operand', 'SyntaxError'),
+                  ('bespokeasm.assembler.model.operand.types.indirect_register.IndirectRegisterOperand.parse_operand', 'SyntaxError')}
     n = 0
     for fn in ctx.repo.all_functions():
         for t in ast.walk(fn.node):
